@@ -1020,7 +1020,8 @@ def selftests(ctx):
         got = verdict_of("close", ev2) - base_c
         ctx.selftest("dropped end tag is rejected (html.balanced)", any(c == "html.balanced" and n >= 1 for (c, _), n in got.items()))
     # spec -> code direction: a perturbed expected outcome must be noticed by the comparison
-    sh = {"src": [cps("zqra")], "dst": [cps("zqra")], "pages": [[cps("zqra"), cps("index.html")]], "links_code": [], "links_fixed": [],
+    sh = {"src": [cps("zqra")], "dst": [cps("zqra")], "names": [cps("Zqt1"), cps("Zqt2"), cps("Zqt3")],
+          "pages": [[cps("zqra"), cps("index.html")]], "links_code": [], "links_fixed": [],
           "broken_code": [], "broken_fixed": []}
     fake = Ctx0()
     compare_with_ilayer(fake, {0: {"universe": case, "shape": sh}}, {0: base}, {0: {"sentinel": set(), "balanced": set(), "links": set()}},
